@@ -163,4 +163,33 @@ func run(t *rapid.T) {
 			}
 		}
 	}
+	// the same operations on fresh copies of their operands (see the family engine)
+	copies := map[*fam.Member]*fam.Member{}
+	fresh := func(m *fam.Member) (*fam.Member, bool) {
+		if m == nil {
+			return nil, true
+		}
+		if c, ok := copies[m]; ok {
+			return c, c != m
+		}
+		c, ok := m.FreshCopy()
+		copies[m] = c
+		return c, ok
+	}
+	for _, rs := range results {
+		for _, r := range rs {
+			recv, ok1 := fresh(r.ex.Recv)
+			other, _ := fresh(r.ex.Other)
+			if !ok1 {
+				continue
+			}
+			core.Probe("fresh-copy-comparisons")
+			ref := safeRun(fam.ResolveWith(w, r.ex.D, r.Client, recv, other))
+			if ref.Canon != r.conc.Canon {
+				tr.Conc, tr.Alone = clip(r.conc.Canon), clip(ref.Canon)
+				core.Violation(t, "C11:I2:differs-from-fresh-copy", fmt.Sprintf("%s (goroutine %d) returned a different result than the same operation on a fresh copy of its operands", r.Desc, r.Client), tr)
+				return
+			}
+		}
+	}
 }
